@@ -343,6 +343,12 @@ func genCase(no int, r *rand.Rand) caseSpec {
 		if r.IntN(2) == 0 && n >= 2 { // an idle reset is only observable as a drop from a positive level
 			s.IdleMS = 30 + r.IntN(71)
 			s.Ops = 20 + r.IntN(25)
+			if n >= 5 && r.IntN(3) == 0 {
+				s.Chain = 1 + r.IntN(2)
+				if s.Chain == 1 {
+					s.Rate = 1 + r.IntN(2)
+				}
+			}
 		}
 	case "lin":
 		for i := 0; i < n; i++ {
